@@ -80,6 +80,10 @@ def run_ops_impl(comp, ops, readonly=True, same_signal=False):
                 r = comp.compute_chunk(x)
                 if not np.array_equal(keep, x):
                     r = "MODIFIED-INPUT"
+                # the chunk array is the caller's: it is reused for something else as soon as the call returns, so a
+                # computer that kept a view of it instead of a copy computes its next frames from garbage
+                x.setflags(write=True)
+                x[...] = 12345.0
                 off += n
             elif k == "z":
                 r = comp.finalize()
